@@ -14,7 +14,7 @@ CHECKS = {
    note="num-bigint is the yardstick; a 'draw' is defined by replaying the stream through Fp::random; endless degenerate streams are excluded (they hang rejection sampling by construction)."),
  "C07": dict(cat="exploration", design="5/C07",
    technique="exhaustive boundary lattice + property-based testing (proptest) against big-integer arithmetic mod p",
-   text="Complete enumeration of a 43-value boundary set crossed with itself for every binary operation and of the set for every unary operation (with every boundary value as exponent), plus generated operands/exponents and 24-byte strings for decoding; published constants checked against their documented meaning with p-1 = 2q re-verified. The lattice part is exhaustive, the rest is sampling of 2^258 pairs.",
+   text="Complete enumeration of a boundary set (values next to 0, 2^32, 2^63, 2^64, 2^127, 2^128, (p-1)/2, p, their inverses, and the same boundaries of the internal Montgomery representation) crossed with itself for every binary operation and of the set for every unary operation (with every boundary value as exponent), plus every element of [2^128, p), generated operands/exponents and 24-byte strings for decoding; published constants checked against their documented meaning with p-1 = 2q re-verified. The lattice part is exhaustive, the rest is sampling of 2^258 pairs.",
    note="num-bigint 0.3.3 is trusted as the arithmetic reference; Miller-Rabin (24 bases) for the primality of p and q."),
  "C08": dict(cat="fault_enumeration", design="5/C08",
    technique="differential testing against an independently written layout parser, with per-base complete fault enumeration (proptest-generated bases)",
